@@ -17,6 +17,8 @@ type FuncResult struct {
 	Obls        []*Obligation
 	Unsupported []string
 	Preamble    []string
+	EntryTerms  map[string]Sc
+	EntryErrs   map[string]string
 }
 
 // footprint of a modifies clause: heap key -> first-level index terms (nil slice = whole key)
@@ -138,7 +140,7 @@ func (e *Enc) addMapKeys(fp *footprint, mt types.Type, m string) {
 }
 
 // verifyFunction encodes fn against its contract and returns the obligations.
-func verifyFunction(P *Program, db *SpecDB, ti *TypeInfo, fn *ssa.Function, c *Contract) *FuncResult {
+func verifyFunction(P *Program, db *SpecDB, ti *TypeInfo, fn *ssa.Function, c *Contract, entryExprs map[string]string) *FuncResult {
 	e := newEnc(P, db, ti)
 	e.funcName = fnKey(fn)
 	res := &FuncResult{Fn: fn, Contract: c, Enc: e}
@@ -183,6 +185,37 @@ func verifyFunction(P *Program, db *SpecDB, ti *TypeInfo, fn *ssa.Function, c *C
 		}
 		e.assert(t)
 		reqs = append(reqs, t)
+	}
+	// the function's own panic condition is evaluated now, so that its definitions are in every obligation's prefix
+	panicCond := ""
+	if c.PanicMode == "only_if" || c.PanicMode == "iff" {
+		t, err := env.evalBool(c.PanicCond)
+		if err != nil {
+			e.unsupportedf("panics clause: %v", err)
+		} else {
+			panicCond = t
+		}
+	}
+	// expressions over the entry state requested by the caller (known-finding excuses, replay observables):
+	// evaluated here so that their definitions are part of every obligation's prefix
+	res.EntryTerms = map[string]Sc{}
+	res.EntryErrs = map[string]string{}
+	for _, k := range sortedKeys(entryExprs) {
+		ex, err := parseExpr(entryExprs[k])
+		if err != nil {
+			res.EntryErrs[k] = err.Error()
+			continue
+		}
+		v, err := env.eval(ex)
+		if err != nil {
+			res.EntryErrs[k] = err.Error()
+			continue
+		}
+		if len(v.L) != 1 {
+			res.EntryErrs[k] = "not a scalar expression"
+			continue
+		}
+		res.EntryTerms[k] = v.L[0]
 	}
 	// entry state may have been extended by lazy heap reads while evaluating requires
 	fr.entry = st.clone()
@@ -229,13 +262,8 @@ func verifyFunction(P *Program, db *SpecDB, ti *TypeInfo, fn *ssa.Function, c *C
 			}
 			e.addObl(&Obligation{Name: "ensures:" + clauseName(en, i), Kind: "ensures", Label: en.Label, Clause: en.Src, Reach: final.reach, Goal: g, Pos: e.posStr(fn.Pos())})
 		}
-		if c.PanicMode == "iff" {
-			oenv := e.envFor(fr, fr.entry)
-			oenv.fr = nil
-			p, err := oenv.evalBool(c.PanicCond)
-			if err == nil {
-				e.addObl(&Obligation{Name: "panics.iff:normal-return", Kind: "panic", Label: c.PanicLabel, Clause: "normal return ⇒ ¬(" + c.PanicSrc + ")", Reach: final.reach, Goal: not(p)})
-			}
+		if c.PanicMode == "iff" && panicCond != "" {
+			e.addObl(&Obligation{Name: "panics.iff:normal-return", Kind: "panic", Label: c.PanicLabel, Clause: "normal return ⇒ ¬(" + c.PanicSrc + ")", Reach: final.reach, Goal: not(panicCond)})
 		}
 		// frame
 		if c.HasModifies {
@@ -260,14 +288,9 @@ func verifyFunction(P *Program, db *SpecDB, ti *TypeInfo, fn *ssa.Function, c *C
 			e.obls = append(e.obls, &Obligation{Name: "nopanic:" + ps.Name, Func: e.funcName, Kind: "panic", Label: c.PanicLabel, Clause: "panics never — " + ps.Desc, N: ps.N, Reach: ps.Reach, Goal: "false", Pos: ps.Pos})
 		}
 	case "only_if", "iff":
-		oenv := e.envFor(fr, fr.entry)
-		oenv.fr = nil
-		p, err := oenv.evalBool(c.PanicCond)
-		if err != nil {
-			e.unsupportedf("panics clause: %v", err)
-		} else {
+		if panicCond != "" {
 			for _, ps := range e.panics {
-				e.obls = append(e.obls, &Obligation{Name: "panic.only_if:" + ps.Name, Func: e.funcName, Kind: "panic", Label: c.PanicLabel, Clause: "panics only if " + c.PanicSrc + " — " + ps.Desc, N: maxInt(ps.N, len(e.out)), Reach: ps.Reach, Goal: p, Pos: ps.Pos})
+				e.obls = append(e.obls, &Obligation{Name: "panic.only_if:" + ps.Name, Func: e.funcName, Kind: "panic", Label: c.PanicLabel, Clause: "panics only if " + c.PanicSrc + " — " + ps.Desc, N: ps.N, Reach: ps.Reach, Goal: panicCond, Pos: ps.Pos})
 			}
 		}
 	}
